@@ -366,13 +366,41 @@ func (t *transpiler) evaluateFor(forStatement parser.For) error {
 }
 
 func (t *transpiler) evaluateVarDefinition(definition parser.VariableDefinition) error {
-	for i, variable := range definition.Variables() {
-		result, err := t.evaluateExpression(definition.Values()[i], true)
+	return t.evaluateValuesAssignment(definition.Variables(), definition.Values())
+}
+
+// evaluateValuesAssignment evaluates all values before the first variable is written
+// (a, b = b, a uses the old values). With several variables, every value is parked in
+// a temporary first because evaluated values may just be references to variables.
+func (t *transpiler) evaluateValuesAssignment(variables []parser.Variable, expressions []parser.Expression) error {
+	values := []string{}
+
+	for i := range variables {
+		result, err := t.evaluateExpression(expressions[i], true)
 
 		if err != nil {
 			return err
 		}
-		err = t.converter.VarDefinition(variable.Name(), result.firstValue(), variable.Global())
+		value := result.firstValue()
+
+		if len(variables) > 1 {
+			temporary := fmt.Sprintf("_ma%d", i)
+			err = t.converter.VarDefinition(temporary, value, false)
+
+			if err != nil {
+				return err
+			}
+			value, err = t.converter.VarEvaluation(temporary, true, false)
+
+			if err != nil {
+				return err
+			}
+		}
+		values = append(values, value)
+	}
+
+	for i, variable := range variables {
+		err := t.converter.VarDefinition(variable.Name(), values[i], variable.Global())
 
 		if err != nil {
 			return err
@@ -407,19 +435,7 @@ func (t *transpiler) evaluateVarDefinitionCallAssignment(definition parser.Varia
 }
 
 func (t *transpiler) evaluateVarAssignment(assignment parser.VariableAssignment) error {
-	for i, variable := range assignment.Variables() {
-		result, err := t.evaluateExpression(assignment.Values()[i], true)
-
-		if err != nil {
-			return err
-		}
-		err = t.converter.VarDefinition(variable.Name(), result.firstValue(), variable.Global())
-
-		if err != nil {
-			return err
-		}
-	}
-	return nil
+	return t.evaluateValuesAssignment(assignment.Variables(), assignment.Values())
 }
 
 func (t *transpiler) evaluateVarAssignmentCallAssignment(assignment parser.VariableAssignmentCallAssignment) error {
